@@ -483,7 +483,7 @@ def star_ts2(rng):
         for c in sorted(kids):
             tables.edges.add_row(brk[k], brk[k + 1], p, c)
     weight = [rng.choice([0.0, 0.2, 1.0, 1.0, 5.0]) for _ in range(n)]
-    dens = rng.choice([0.0, 0.05, 0.3, 0.9])
+    dens = rng.choice([0.0, 0.05, 0.05, 0.1, 0.3, 0.3, 0.9, 0.9])
     for x in range(L):
         if rng.random() < dens:
             k = max(j for j in range(len(brk) - 1) if brk[j] <= x)
